@@ -538,7 +538,12 @@ def siteTableExt : List (String × String) :=
     ("carquet_offset_index_serialize", "indexSerialize"),
     ("carquet_read_dictionary_page", "readDictionaryPage"), ("load_dictionary_page_fread", "loadDictionaryPage"),
     ("load_dictionary_page_mmap", "loadDictionaryPage"), ("carquet_column_skip", "skip"),
-    ("read_page_header_fread", "headerWindow"), ("parse_key_value", "strAlloc") ]
+    ("read_page_header_fread", "headerWindow"), ("parse_key_value", "strAlloc"),
+    -- requests made by a codec LIBRARY on behalf of decompress_page (zstd's per-thread decompression context, created on the
+    -- first use in a thread, so only seen when the fault is delivered in a fresh process): the wrapper absorbs the failure
+    -- (falls back to the one-shot API: same effect) or reports a decompression error; the structural models do not count
+    -- library-internal requests, the tie judges such a case by the property alone (no crash, no leak, error or same effect)
+    ("decompress_page", "libraryInternal") ]
 
 def modelledSiteExt (fn : String) : Bool :=
   siteTableExt.any (fun p => p.1 == ((fn.splitOn "._omp_fn").headD fn))
